@@ -10,7 +10,7 @@ use std::collections::BTreeMap;
 use std::time::Instant;
 
 pub fn run(ctx: &Ctx, rep: &mut Report) {
-    rep.rule = "a seeded workload of encode/decode cases: three quarters single-block (K weighted over 1..=60 / ..=200 / 201..=300 (group A) or ..=1000 (group B, release builds only), T in {1, 1..8, 63..66, 1..130, 16, 40..99}, 4-15 repair ESIs from near/uniform/far classes, an erasure pattern with overhead -1..2 so that undecodable sets occur), one quarter object-level (Al in {1,2,4,8}, T <= 40, Z <= 4, N <= 3, F not a multiple of T, 4..9 repair packets per block, shuffled delivery with up to 5 losses, through Encoder/Decoder), is generated once per seed and run in every configuration: builds {release, chk = release + debug assertions + overflow checks} x {std, no_std}; in the release-std build additionally every forced kernel {default, AVX-512, AVX2, SSSE3, portable} x sparse threshold {0, 250, infinity} on encoder and decoder x plan mode {new (twice: second served by the cache), with_encoding_plan, unplanned}; in the other builds default kernel x 3 thresholds x {new, unplanned}. Oracle (differential): SHA-256 over (all source packets, the repair packets, decode outcome tag, decoded bytes) must be identical for every configuration of every build. Non-trivial = a case decoded through the solver (a source symbol missing); distinct = (case, build, configuration) triples.".into();
+    rep.rule = "a seeded workload of encode/decode cases: three quarters single-block (K weighted over 1..=60 / ..=200 / 201..=300 (group A) or ..=1000 (group B, release builds only), T in {1, 1..8, 63..66, 1..130, 16, 40..99}, 4-15 repair ESIs from near/uniform/far classes, an erasure pattern with overhead -1..2 so that undecodable sets occur), one quarter object-level (Al in {1,2,4,8}, T <= 40, Z <= 4, N <= 3, F not a multiple of T, 4..9 repair packets per block, shuffled delivery with up to 5 losses, through Encoder/Decoder), is generated once per seed, together with 4 000 default derivations `with_defaults(F, P')` (F log-uniform below 2^40, P' over 1..=65535) and six objects of 5 kB..3 MB encoded through `Encoder::with_defaults` / `EncoderBuilder` (the configuration a build derives on its own is an output too), and run in every configuration: builds {release, chk = release + debug assertions + overflow checks} x {std, no_std}; in the release-std build additionally every forced kernel {default, AVX-512, AVX2, SSSE3, portable} x sparse threshold {0, 250, infinity} on encoder and decoder x plan mode {new (twice: second served by the cache), with_encoding_plan, unplanned}; in the other builds default kernel x 3 thresholds x {new, unplanned}. Oracle (differential): SHA-256 over (all source packets, the repair packets, decode outcome tag, decoded bytes) must be identical for every configuration of every build. Non-trivial = a case decoded through the solver (a source symbol missing); distinct = (case, build, configuration) triples.".into();
     rep.assumptions.push("NEON kernels cannot execute on this x86-64 host; 32-bit x86 builds are not installed; no_std builds compile only the portable kernels (a second, hook-free route to them)".into());
     let started = Instant::now();
     let dir = format!("{VERIF_DIR}/logs");
